@@ -30,8 +30,8 @@ CONF = {
                 runs={"quick": 6000, "thorough": 150000},
                 wall={"quick": 170, "thorough": 1800}),
     "C06": dict(module="xsim.eng_c06", stub=False, kind="shards", shadow_hashseed=0,
-                runs={"quick": 4000, "thorough": 80000},
-                wall={"quick": 170, "thorough": 1800}),
+                runs={"quick": 3000, "thorough": 80000},
+                wall={"quick": 200, "thorough": 2400}),
     "C07": dict(module="xsim.eng_c07", stub=True, kind="shards", shadow_hashseed=0,
                 runs={"quick": 16000, "thorough": 400000},
                 wall={"quick": 150, "thorough": 1500}),
@@ -282,11 +282,16 @@ def cmd_check(prop, argv):
 # --------------------------------------------------------------- selftest
 def cmd_selftest(argv):
     ap = argparse.ArgumentParser()
-    ap.add_argument("what", choices=["determinism"])
+    ap.add_argument("what", choices=["determinism", "mutants"])
+    ap.add_argument("--only", default=None, help="mutants: comma-separated name prefixes")
+    ap.add_argument("--dir", default=os.path.join(HERE, "mutants"))
+    ap.add_argument("--budget-runs", type=int, default=0, help="mutants: runs per check (0 = quick default)")
     ap.add_argument("--props", default="C16,C18,C06,C07,C08")
     ap.add_argument("--seeds", type=int, default=8)
     ap.add_argument("--runs", type=int, default=96)
     args = ap.parse_args(argv)
+    if args.what == "mutants":
+        return selftest_mutants(args)
     bad = 0
     for prop in args.props.split(","):
         for s in range(args.seeds):
@@ -317,6 +322,65 @@ def cmd_selftest(argv):
                 bad += 1
                 print("   first differing runs:", diff[:5])
     return core.EXIT_HARNESS if bad else core.EXIT_OK
+
+
+def run_against_patch(patch, props, runs=0, tier="quick", keep_log=None):
+    """Apply ``patch`` to a scratch worktree of /repo (outside /repo and /verif,
+    removed afterwards), run the given checks against it (XSIM_REPO), return
+    {prop: (exit code, [violation fingerprints])}."""
+    import shutil
+    import subprocess
+    import tempfile
+
+    tmp = tempfile.mkdtemp(prefix="xsim_mut_")
+    wt = os.path.join(tmp, "repo")
+    out = {}
+    try:
+        subprocess.check_call(["git", "-C", "/repo", "worktree", "add", "-q", "--detach", wt, "HEAD"])
+        subprocess.check_call(["git", "-C", wt, "apply", "--whitespace=nowarn", os.path.abspath(patch)])
+        env = dict(os.environ)
+        env["XSIM_REPO"] = wt
+        env["XSIM_EVIDENCE_DIR"] = os.path.join(tmp, "evidence")
+        env["XSIM_REPLAY_DIR"] = os.path.join(tmp, "replays")
+        if runs:
+            env["XSIM_RUNS"] = str(runs)
+        for prop in props:
+            cp = subprocess.run([sys.executable, os.path.join(HERE, "check.py"), prop, "--tier", tier],
+                                env=env, capture_output=True, text=True, cwd=HERE)
+            fps = [l.split("fingerprint=")[1].split()[0] for l in cp.stdout.splitlines() if "fingerprint=" in l and "KNOWN" not in l]
+            details = [l.strip() for l in cp.stdout.splitlines() if l.startswith("    ") and "fingerprint=" not in l and " = " not in l]
+            out[prop] = (cp.returncode, fps, details[:3], cp.stdout[-1500:] if cp.returncode == 2 else "")
+            if keep_log:
+                with open(keep_log, "a") as f:
+                    f.write(f"===== {patch} {prop} rc={cp.returncode}\n{cp.stdout[-6000:]}\n{cp.stderr[-2000:]}\n")
+    finally:
+        subprocess.call(["git", "-C", "/repo", "worktree", "remove", "--force", wt])
+        shutil.rmtree(tmp, ignore_errors=True)
+    return out
+
+
+def selftest_mutants(args):
+    import glob
+
+    names = sorted(glob.glob(os.path.join(args.dir, "*.patch")))
+    if args.only:
+        pref = args.only.split(",")
+        names = [n for n in names if any(os.path.basename(n).startswith(p) for p in pref)]
+    missed = 0
+    for patch in names:
+        meta = open(patch[:-6] + ".meta").read().splitlines()
+        prop = meta[0].split("=")[1].strip()
+        res = run_against_patch(patch, [prop], runs=args.budget_runs)
+        rc, fps, details, tail = res[prop]
+        verdict = "CAUGHT" if rc == 1 and fps else ("HARNESS-ERROR" if rc == 2 else "MISSED")
+        if verdict != "CAUGHT":
+            missed += 1
+        print(f"{verdict:8s} {os.path.basename(patch)[:-6]:45s} property={prop} rc={rc} fingerprints={fps[:3]}")
+        if verdict == "HARNESS-ERROR":
+            print(tail)
+        sys.stdout.flush()
+    print(f"mutants: {len(names)} run, {missed} not caught")
+    return 0 if missed == 0 else 1
 
 
 def cmd_setup(argv):
